@@ -253,6 +253,21 @@ impl<'tcx> Cx<'tcx> {
                 val = format!("\"{}\"", v);
             }
         }
+        // fieldless enum constants: report the variant
+        let mut variant = String::from("null");
+        if let ty::Adt(adt, _) = ty.kind() {
+            if adt.is_enum() && adt.variants().iter().all(|v| v.fields.is_empty()) && !adt.variants().is_empty() {
+                if let Some(si) = c.const_.try_eval_scalar_int(tcx, env) {
+                    let bits = si.to_bits(si.size());
+                    for (vi, d) in adt.discriminants(tcx) {
+                        let mask = if si.size().bits() >= 128 { u128::MAX } else { (1u128 << si.size().bits()) - 1 };
+                        if (d.val & mask) == bits {
+                            variant = jstr(adt.variant(vi).name.as_str());
+                        }
+                    }
+                }
+            }
+        }
         let mut strv = String::from("null");
         // &'static str literals
         if let ty::Ref(_, inner, _) = ty.kind() {
@@ -268,10 +283,11 @@ impl<'tcx> Cx<'tcx> {
             self.note_adt(*adt);
         }
         format!(
-            "{{\"k\":\"const\",\"ty\":{},\"val\":{},\"str\":{},\"named\":{}}}",
+            "{{\"k\":\"const\",\"ty\":{},\"val\":{},\"str\":{},\"variant\":{},\"named\":{}}}",
             jstr(&tys),
             val,
             strv,
+            variant,
             if named.is_empty() {
                 "null".to_string()
             } else {
@@ -364,7 +380,12 @@ impl<'tcx> Cx<'tcx> {
                 self.operand_json(owner, body, a)
             ),
             Rvalue::Discriminant(p) => {
-                format!("{{\"r\":\"discr\",\"p\":{}}}", self.place_json(body, p))
+                let pty = p.ty(&body.local_decls, self.tcx).ty;
+                format!(
+                    "{{\"r\":\"discr\",\"p\":{},\"ty\":{}}}",
+                    self.place_json(body, p),
+                    jstr(&self.ty_str(pty))
+                )
             }
             Rvalue::CopyForDeref(p) => format!(
                 "{{\"r\":\"use\",\"op\":{{\"k\":\"copy\",\"p\":{}}}}}",
